@@ -43,7 +43,7 @@ CHECKS = {
     "compute/super_reconciliation.py": ["C02", "C05", "C08"],
     "compute/unordered_super_reconciliation.py": ["C03", "C04", "C05"],
     "compute/util.py": ["C01", "C02", "C03"],
-    "model/reconciliation.py": ["C06", "C11", "C12"],
+    "model/reconciliation.py": ["C06", "C11", "C12", "C08"],
     "model/tree_mapping.py": ["C11", "C12"],
     "model/synteny.py": ["C11", "C12", "C15"],
     "utils/dynamic_programming.py": ["C16"],
